@@ -17,6 +17,7 @@ import (
 	metav1 "k8s.io/apimachinery/pkg/apis/meta/v1"
 	"k8s.io/apimachinery/pkg/util/intstr"
 	"k8s.io/client-go/tools/record"
+	"sigs.k8s.io/controller-runtime/pkg/reconcile"
 )
 
 type c11Ctrl struct {
@@ -170,12 +171,18 @@ func c11Round(phaseIdx int) {
 	newStatus := getInitializedStatus(&release.Status)
 	stop, _, err := r.syncStatusBeforeExecuting(release, newStatus, ctrl)
 	executed := false
+	var result reconcile.Result
 	if !stop && err == nil {
 		executed = true
-		_, newStatus, err = r.executeBatchReleasePlan(release, newStatus, ctrl)
+		result, newStatus, err = r.executeBatchReleasePlan(release, newStatus, ctrl)
 	}
 	post := newStatus
-	_ = err
+	// ---- C07: a round that moved the batch along (Upgrading -> Verifying -> Ready -> next batch) leaves more work
+	// that no watch event announces (status-only writes do not wake the reconciler): it asks to be called again
+	if executed && err == nil && pre.Phase == v1beta1.RolloutPhaseProgressing && post.Phase == v1beta1.RolloutPhaseProgressing &&
+		(post.CanaryStatus.CurrentBatchState != pre.CanaryStatus.CurrentBatchState || post.CanaryStatus.CurrentBatch != pre.CanaryStatus.CurrentBatch) {
+		verifrt.Assert(result.RequeueAfter > 0 || result.Requeue, "C07.executor.progressComesWithARequeue")
+	}
 
 	progressing := pre.Phase == v1beta1.RolloutPhaseProgressing
 	// ---- the invariant is inductive
@@ -260,3 +267,7 @@ func VerifC01_ExecutorGate() { c11Round(2) }
 // persisted (obligation C06.executor.persistBeforeAct of the executor round, run under C06 too).
 func VerifC06_ExecutorPersistsBeforeActing_Progressing() { VerifC11_ExecutorRound_Progressing() }
 func VerifC06_ExecutorPersistsBeforeActing_Preparing()   { VerifC11_ExecutorRound_Preparing() }
+
+// C07: the executor asks to be called again whenever it moved a batch along (obligation
+// C07.executor.progressComesWithARequeue of the Progressing round).
+func VerifC07_ExecutorProgressComesWithARequeue() { VerifC11_ExecutorRound_Progressing() }
